@@ -80,6 +80,14 @@ func (t *ProgressTelemetry) AllProgressComplete() bool {
 
 func (t *ProgressTelemetry) Start() {
 	go t.writer.Render()
+
+	// checkProgress runs for as long as the render is in progress and decides
+	// the final result when it ends; it must not start before the render has
+	// or it would report success with no tracker registered yet
+	for !t.writer.IsRenderInProgress() {
+		time.Sleep(time.Millisecond)
+	}
+
 	go t.checkProgress()
 }
 
@@ -136,7 +144,8 @@ func (t *ProgressTelemetry) checkProgress() {
 	for t.writer.IsRenderInProgress() {
 		select {
 		case <-ticker.C:
-			if t.writer.LengthActive() == 0 {
+			// nothing registered yet is not the same as everything done
+			if t.writer.Length() > 0 && t.writer.LengthActive() == 0 {
 				t.writer.Stop()
 			}
 		case <-t.chDone:
